@@ -25,7 +25,8 @@ RULE = (
     " REJECT by construction): EVERY single-bit flip of every byte of the M2 State/PublicKey/EncryptedData and of M4;"
     " field removal; wrong-length and low-order public keys; inner sub-TLV re-sealed under the correct session key with"
     " wrong LTSK / signature over each permuted transcript / other identifier / keys of another exchange / truncated,"
-    " extended, missing signature or identifier; M2 recorded from another exchange; unencrypted sub-TLV; resume replies"
+    " extended, missing signature or identifier; an attacker key smuggled into the sub-TLV and used for the signature; the"
+    " step answered with an error code (0x00..0x08, 0x80, 0xFF, empty); M2 recorded from another exchange; unencrypted sub-TLV; resume replies"
     " with a tag from a wrong secret, flipped SessionID/Method/tag bits, unsolicited resume; every byte-prefix of the raw"
     " M2/M4 stream. EITHER (content-preserving): reordering and identical duplication - if accepted, keys must still"
     " equal the reference's. Distinct by (record, mutation, arg, mode); non-trivial = all."
@@ -215,6 +216,20 @@ def build_mutation(name, arg, rec: Record, rng, recorded):
             return reseal(ex, [(1, rec.identity.pairing_id)])
         if kind == "inner_empty":
             return reseal(ex, [])
+        if kind == "attacker_key_inside":
+            # sub-TLV carries the attacker's own long-term public key in an extra item and is signed by that key
+            atk = ed25519.Ed25519PrivateKey.from_private_bytes(rng.randbytes(32))
+            sig = atk.sign(ex.acc_pk + rec.identity.pairing_id + ex.ios_pk)
+            extra_type = [3, 9, 0, 11][arg % 4]
+            items_in = [(1, rec.identity.pairing_id), (extra_type, refpv.raw_pub(atk)), (10, sig)]
+            if arg >= 4:
+                items_in = [(extra_type, refpv.raw_pub(atk)), (1, rec.identity.pairing_id), (10, sig)]
+            return reseal(ex, items_in)
+        if kind == "error":
+            # the accessory answers the step with an error code (it did NOT accept): State present, Error appended
+            return [(6, bytes([2 if stage_name == "M2" else 4])), (7, bytes([arg]) if arg >= 0 else b"")]
+        if kind == "error_with_fields":
+            return list(items) + [(7, bytes([arg]))]
         if kind == "wrong_label":
             return [(6, b"\x02"), (3, ex.acc_pk), (5, refpv.seal(ex.session_key, b"PV-Msg03", ex.sub_tlv))]
         if kind == "unencrypted":
@@ -378,6 +393,9 @@ def plan_for(ctx, m2_items):
              ("M2:wrong_accessory", 0), ("M2:id_swapped_sig_real", 0), ("M2:sig_truncated", 0), ("M2:sig_extended", 0),
              ("M2:no_identifier", 0), ("M2:no_signature", 0), ("M2:inner_empty", 0), ("M2:wrong_label", 0), ("M2:unencrypted", 0),
              ("M2:replay_recorded_m2", 0)]
+    plan += [("M2:attacker_key_inside", i) for i in range(8)]
+    plan += [("M4:error", c) for c in (0, 1, 2, 3, 4, 5, 6, 7, 8, 0x80, 255, -1)] + [("M2:error", c) for c in (0, 1, 2, 6, 255)]
+    plan += [("M2:error_with_fields", c) for c in (0, 1, 2, 7, 255)]
     plan += [("M2:sig_permuted", i) for i in range(5)] + [("M2:sig_flipped", b) for b in range(0, 512, 37)]
     raw_len = len(reftlv.encode(m2_items))
     plan += [("M2:prefix", n) for n in range(raw_len)] + [("M4:prefix", n) for n in range(3)]
